@@ -474,20 +474,40 @@ impl StorageEngine {
             return Err(StorageError::KnowledgeGraphNotFound(kg.to_string()));
         }
 
+        // Take the KG write lock BEFORE logging. Relations are sets: the log must
+        // record exactly the changes this request makes to the set (recovery sums
+        // the diffs), so which tuples are new has to be decided - and stay true -
+        // until they are applied. Writers to one KG are serialized from the
+        // timestamp to the in-memory update; readers use the published snapshot.
+        let db = self
+            .knowledge_graphs
+            .get(kg)
+            .ok_or_else(|| StorageError::KnowledgeGraphNotFound(kg.to_string()))?;
+        let mut db = db.write();
+
         // Generate shard name and logical time
         let shard = format!("{kg}:{relation}");
         let time = self.logical_time.fetch_add(1, Ordering::SeqCst);
 
-        // Create DD-style updates (+1 diff for insert)
-        let updates: Vec<Update> = tuples
-            .iter()
+        // Create DD-style updates (+1 diff) for the tuples that are actually new:
+        // not stored yet and not repeated earlier in this batch.
+        let mut fresh: Vec<&Tuple> = Vec::new();
+        for t in &tuples {
+            if !db.contains_tuple(relation, t) && !fresh.contains(&t) {
+                fresh.push(t);
+            }
+        }
+        let updates: Vec<Update> = fresh
+            .into_iter()
             .map(|data| Update::insert(data.clone(), time))
             .collect();
 
         // Persist first (durability guarantee via WAL + batches)
         let persist_start = Instant::now();
         self.persist.ensure_shard(&shard)?;
-        self.persist.append(&shard, &updates)?;
+        if !updates.is_empty() {
+            self.persist.append(&shard, &updates)?;
+        }
         let persist_ms = persist_start.elapsed().as_millis() as u64;
         info!(
             kg = %kg,
@@ -497,17 +517,11 @@ impl StorageEngine {
             "persist_append_complete"
         );
 
-        // Release dropping_kgs guard before acquiring KG write lock
-        drop(dropping_guard);
-
         // Update in-memory state
-        let db = self
-            .knowledge_graphs
-            .get(kg)
-            .ok_or_else(|| StorageError::KnowledgeGraphNotFound(kg.to_string()))?;
-
-        let mut db = db.write();
-        db.insert_in_memory(relation, tuples, time)
+        let result = db.insert_in_memory(relation, tuples, time);
+        drop(db);
+        drop(dropping_guard);
+        result
     }
 
     /// Delete binary tuples from a relation in the current knowledge graph
@@ -585,31 +599,42 @@ impl StorageEngine {
             return Err(StorageError::KnowledgeGraphNotFound(kg.to_string()));
         }
 
-        // Generate shard name and logical time
-        let shard = format!("{kg}:{relation}");
-        let time = self.logical_time.fetch_add(1, Ordering::SeqCst);
-
-        // Create DD-style updates (-1 diff for delete)
-        let updates: Vec<Update> = tuples
-            .iter()
-            .map(|data| Update::delete(data.clone(), time))
-            .collect();
-
-        // Persist first (durability guarantee via WAL + batches)
-        self.persist.ensure_shard(&shard)?;
-        self.persist.append(&shard, &updates)?;
-
-        // Release dropping_kgs guard before acquiring KG write lock
-        drop(dropping_guard);
-
-        // Update in-memory state
+        // KG write lock before logging, as in insert_tuples_into: only tuples that
+        // are actually stored are logged as deleted (deleting an absent tuple must
+        // not cancel a later insert of it on recovery).
         let db = self
             .knowledge_graphs
             .get(kg)
             .ok_or_else(|| StorageError::KnowledgeGraphNotFound(kg.to_string()))?;
-
         let mut db = db.write();
-        db.delete_in_memory(relation, &tuples, time)
+
+        // Generate shard name and logical time
+        let shard = format!("{kg}:{relation}");
+        let time = self.logical_time.fetch_add(1, Ordering::SeqCst);
+
+        // Create DD-style updates (-1 diff) for the tuples that are actually present
+        let mut present: Vec<&Tuple> = Vec::new();
+        for t in &tuples {
+            if db.contains_tuple(relation, t) && !present.contains(&t) {
+                present.push(t);
+            }
+        }
+        let updates: Vec<Update> = present
+            .into_iter()
+            .map(|data| Update::delete(data.clone(), time))
+            .collect();
+
+        // Persist first (durability guarantee via WAL + batches)
+        if !updates.is_empty() {
+            self.persist.ensure_shard(&shard)?;
+            self.persist.append(&shard, &updates)?;
+        }
+
+        // Update in-memory state
+        let result = db.delete_in_memory(relation, &tuples, time);
+        drop(db);
+        drop(dropping_guard);
+        result
     }
 
     /// Execute an IQL query on the current knowledge graph
@@ -2259,6 +2284,14 @@ impl KnowledgeGraph {
     ///
     /// # Errors
     /// Returns error if DD shadow write fails.
+    /// Whether `tuple` is currently stored in base relation `relation`.
+    fn contains_tuple(&self, relation: &str, tuple: &Tuple) -> bool {
+        self.engine
+            .input_tuples
+            .get(relation)
+            .is_some_and(|existing| existing.contains(tuple))
+    }
+
     fn insert_in_memory(
         &mut self,
         relation: &str,
